@@ -41,8 +41,14 @@ func HarnessC17Response() {
 	errCfg := vChoice("error-page", 4) // none, valid, missing file, page that itself fails
 	vfsWriteFile("templates/ok.tw", "ok {{ d }}!")
 	vfsWriteFile("templates/calc.tw", c17Page)
-	vfsWriteFile("templates/err.tw", "Custom oops")
+	// the custom error page has a variable of its own; the failed page's data uses the same name with another type
+	vfsWriteFile("templates/err.tw", "{{ t = \"Custom\" }}{{ t }} oops")
 	vfsWriteFile("templates/errbad.tw", "E{{ 1 / 0 }}")
+	if vChoice("configured-before", 2) == 1 {
+		// an earlier NewTemplate call of the same process with the opposite debug setting
+		prev, perr := NewTemplate(&config.Config{TemplateDir: "templates", TemplateExt: ".tw", DebugMode: !debug})
+		vAssert(perr == nil && prev != nil, "templates-load")
+	}
 	cfg := &config.Config{TemplateDir: "templates", TemplateExt: ".tw", DebugMode: debug}
 	switch errCfg {
 	case 1:
@@ -57,11 +63,13 @@ func HarnessC17Response() {
 	var name string
 	var data map[string]any
 	d := string([]byte{vByte("d")})
-	switch vChoice("page", 3) {
+	switch vChoice("page", 4) {
 	case 0:
 		name, data = "ok", map[string]any{"d": d}
 	case 1:
-		name, data = "calc", map[string]any{"vs": []any{vInt64("v0"), vInt64("v1")}}
+		name, data = "calc", map[string]any{"vs": []any{vInt64("v0"), vInt64("v1")}, "t": 404}
+	case 2: // the data itself is the fault
+		name, data = "ok", map[string]any{"d": make(chan int)}
 	default:
 		name, data = "absent", nil
 	}
